@@ -2,6 +2,9 @@ import HdVerif.Model.Basic
 import HdVerif.Generated.T2
 import HdVerif.Generated.T3
 import HdVerif.Generated.TC03pyr
+import HdVerif.Generated.TC03stack
+import HdVerif.Generated.TC03segvol
+import HdVerif.Generated.TC03imgvol
 /-! # Geometry of derived images (C03)
 
 Executable model over `Rat` of how highdicom places a derived image in space:
@@ -268,9 +271,13 @@ def indexOf? (v : Int) : List Int → Option Nat
   | [] => none
   | a :: t => if a == v then some 0 else (indexOf? v t).map (· + 1)
 
-/-- frames kept by a slice request, with their output slot: `(frame index, vol_pos - slice_start)` -/
+/-- frames kept by a slice request, with their output slot — the loop of `_get_stacked_volume_geometry` over
+`zip(frame_numbers, volume_positions)` with the translated body `Gen.stackFrameSlot` -/
 def framePositions (vps : List Int) (s e : Int) : List (Nat × Int) :=
-  (vps.zipIdx).filterMap (fun (vp, i) => if s ≤ vp && vp < e then some (i, vp - s) else none)
+  (vps.zipIdx).filterMap (fun (vp, i) =>
+    match stackFrameSlot vp s e with
+    | .ok (true, slot) => some (i, slot)
+    | _ => none)
 
 /-- result of `_get_stacked_volume_geometry`: affine, spatial shape, frame placement -/
 structure StackGeom where
@@ -287,24 +294,47 @@ def stackedGeometry (st : Stack) (rows cols : Int) (allowMissing : Bool) (ss se 
   | .error e => .error e
   | .ok none => .error .runtime
   | .ok (some (spacing, vps)) =>
-    let nInit := listMaxInt 0 vps + 1
-    match stdSliceIndices ss se nInit asIdx with
+    match stackInitialSlices (listMaxInt 0 vps) with
     | .error e => .error e
-    | .ok (s, e) =>
-      match indexOf? 0 vps with
-      | none => .error .value
-      | some oi =>
-        match st.pos[oi]? with
-        | none => .error .index
-        | some origin =>
-          match fromAttributes origin st.rowCos st.colCos st.psRow st.psCol spacing with
-          | .error e => .error e
-          | .ok a =>
-            match getitemAxis (some s) (some e) nInit with
+    | .ok nInit =>
+      match stdSliceIndices ss se nInit asIdx with
+      | .error e => .error e
+      | .ok (s, e) =>
+        match indexOf? 0 vps with
+        | none => .error .value
+        | some oi =>
+          match st.pos[oi]? with
+          | none => .error .index
+          | some origin =>
+            match fromAttributes origin st.rowCos st.colCos st.psRow st.psCol spacing with
             | .error e => .error e
-            | .ok (first, size) =>
-              .ok { aff := a.shift first 0 0, n := size, rows := rows, cols := cols,
-                    frames := framePositions vps s e }
+            | .ok a =>
+              match stackGeomSlice s e with
+              | .error e => .error e
+              | .ok (g0, g1) =>
+                match getitemAxis (some g0) (some g1) nInit with
+                | .error e => .error e
+                | .ok (first, size) =>
+                  .ok { aff := a.shift first 0 0, n := size, rows := rows, cols := cols,
+                        frames := framePositions vps s e }
+
+/-- which class's `get_volume` -/
+inductive Kind | image | seg
+deriving DecidableEq, Repr
+
+def tiledGeomLowerOf : Kind → Int → Int → Int → Int → Except ErrKind (Int × Int)
+  | .image => imgTiledGeomLower
+  | .seg => segTiledGeomLower
+def stackGeomSliceOf : Kind → Int → Int → Int → Int → Except ErrKind (Int × Int × Int × Int)
+  | .image => imgStackGeomSlice
+  | .seg => segStackGeomSlice
+def stackArraySliceOf : Kind → Int → Int → Int → Int → Except ErrKind (Int × Int × Int × Int)
+  | .image => imgStackArraySlice
+  | .seg => segStackArraySlice
+
+/-- numpy basic slicing `x[a:b]` on an axis of length `n` (never fails): first index and length -/
+def npFirst (a n : Int) : Int := if a < 0 then imax (a + n) 0 else imin a n
+def npLen (a b n : Int) : Int := imax (npFirst b n - npFirst a n) 0
 
 /-- a sub-volume request as the user writes it -/
 structure Request where
@@ -329,24 +359,30 @@ structure VolOut where
   colFirst : Int
 deriving Repr
 
-/-- stacked branch of `Image.get_volume` / `Segmentation.get_volume` -/
-def getVolumeStack (st : Stack) (rows cols : Int) (allowMissing : Bool) (rq : Request) : Except ErrKind VolOut :=
+/-- stacked branch of `Image.get_volume` / `Segmentation.get_volume` (`k` selects whose translated slicing
+expressions are used): the pixel array is cut with numpy slicing, the affine is that of the sliced geometry -/
+def getVolumeStack (k : Kind) (st : Stack) (rows cols : Int) (allowMissing : Bool) (rq : Request) : Except ErrKind VolOut :=
   match stdRowColIndices rq.rowStart rq.rowEnd rq.colStart rq.colEnd rows cols rq.asIdx true with
   | .error e => .error e
   | .ok (rs, re, cs, ce) =>
     match stackedGeometry st rows cols allowMissing rq.sliceStart rq.sliceEnd rq.asIdx with
     | .error e => .error e
     | .ok sg =>
-      match getitemAxis (some rs) (some re) rows, getitemAxis (some cs) (some ce) cols with
-      | .ok (r0, rn), .ok (c0, cn) =>
-        .ok { aff := sg.aff.shift 0 r0 c0, n := sg.n, rows := rn, cols := cn, frames := sg.frames,
-              rowFirst := r0, colFirst := c0 }
+      match stackArraySliceOf k rs re cs ce, stackGeomSliceOf k rs re cs ce with
+      | .ok (ar0, ar1, ac0, ac1), .ok (gr0, gr1, gc0, gc1) =>
+        match getitemAxis (some gr0) (some gr1) rows, getitemAxis (some gc0) (some gc1) cols with
+        | .ok (r0, _), .ok (c0, _) =>
+          .ok { aff := sg.aff.shift 0 r0 c0, n := sg.n, rows := npLen ar0 ar1 rows, cols := npLen ac0 ac1 cols,
+                frames := sg.frames, rowFirst := npFirst ar0 rows, colFirst := npFirst ac0 cols }
+        | .error e, _ => .error e
+        | _, .error e => .error e
       | .error e, _ => .error e
       | _, .error e => .error e
 
 /-- tiled branch: geometry from the total-pixel-matrix origin; the pixel region is standardised a second time
-inside `get_total_pixel_matrix(…, as_indices=True)` (one-based outputs), whose differences give the shape. -/
-def tiledVolume (origin rowCos colCos : V3) (psRow psCol : Rat) (sbs : Option Rat) (totalRows totalCols : Int)
+inside `get_total_pixel_matrix(…, as_indices=True)` (one-based outputs), whose differences give the shape;
+the affine is `volume_geometry[:, lo_r:, lo_c:]` with the translated lower bounds. -/
+def tiledVolume (k : Kind) (origin rowCos colCos : V3) (psRow psCol : Rat) (sbs : Option Rat) (totalRows totalCols : Int)
     (rq : Request) : Except ErrKind VolOut :=
   match stdRowColIndices rq.rowStart rq.rowEnd rq.colStart rq.colEnd totalRows totalCols rq.asIdx true with
   | .error e => .error e
@@ -361,12 +397,15 @@ def tiledVolume (origin rowCos colCos : V3) (psRow psCol : Rat) (sbs : Option Ra
         | .error e => .error e
         | .ok (rs1, re1, cs1, ce1) =>
           if re1 - rs1 < 0 || ce1 - cs1 < 0 then .error .value else
-          match getitemAxis (some rs) none totalRows, getitemAxis (some cs) none totalCols with
-          | .ok (r0, _), .ok (c0, _) =>
-            .ok { aff := a.shift 0 r0 c0, n := 1, rows := re1 - rs1, cols := ce1 - cs1, frames := [],
-                  rowFirst := r0, colFirst := c0 }
-          | .error e, _ => .error e
-          | _, .error e => .error e
+          match tiledGeomLowerOf k rs re cs ce with
+          | .error e => .error e
+          | .ok (lr, lc) =>
+            match getitemAxis (some lr) none totalRows, getitemAxis (some lc) none totalCols with
+            | .ok (r0, _), .ok (c0, _) =>
+              .ok { aff := a.shift 0 r0 c0, n := 1, rows := re1 - rs1, cols := ce1 - cs1, frames := [],
+                    rowFirst := rs, colFirst := cs }
+            | .error e, _ => .error e
+            | _, .error e => .error e
 
 /-- `get_volume_geometry()` of a stacked image: the default request of `_get_stacked_volume_geometry` -/
 def volumeGeometryStack (st : Stack) (rows cols : Int) (allowMissing : Bool) : Except ErrKind StackGeom :=
